@@ -13,7 +13,7 @@ for d in sorted(glob.glob('/verif/seeded/*/')):
         res='**caught** by `./check %s quick`: %s'%(det['check'],shown)
     else:
         res='**not caught** - '+m.get('miss_reason','see notes')
-    rows.append('| %s | %s | %s | %s |'%(sid,m['property'],what,res))
+    rows.append('| %s | %s | %s | %s |'%(sid,m['property']+(' (-> %s)'%m['check_with'] if m.get('check_with') else ''),what,res))
 print('| seeded change | breaks | what it is / what it needs | result |')
 print('|---|---|---|---|')
 print('\n'.join(rows))
